@@ -2,11 +2,14 @@
 From Coq Require Import List String.
 From SCC Require Import Base.Sexp Model.RunBase Model.RunPM Model.RunX86.
 From SCC Require Import Base.Sexp Model.RunBase Model.RunPM Model.RunStages.
+From SCC Require Import Model.RunA64.
 From SCC Require Import Model.RunFun2Core.
+From SCC Require Import Model.RunSubst.
 From SCC Require Import Model.RunRT.
 From SCC Require Import Model.RunLin.
 From SCC Require Import Base.Sexp Model.RunBase Model.RunCheck.
 From SCC Require Import Model.RunFmt.
+From SCC Require Import Base.Sexp Model.RunBase Model.RunRV.
 Open Scope string_scope.
 
 Definition dispatch (cmd : string) (input : string) : string :=
@@ -20,9 +23,14 @@ Definition dispatch (cmd : string) (input : string) : string :=
   | "show-x86" => run_show_x86 input
   | "c10-x86" => run_c10_x86 input
   | "stages" => run_stages input
+  | "codegen-a64" => run_codegen_a64 input
   | "fun2core" => run_fun2core input
+  | "subst" => run_subst input
+  | "subst-corr" => run_subst_corr input
   | "rt" => run_rt input
   | "check" => run_check input
   | "fmt" => run_fmt input
+  | "codegen-rv" => run_codegen_rv input
+  | "sem-rv" => run_sem_rv input
   | _ => "BAD - unknown command " ++ cmd ++ nl
   end.
